@@ -82,16 +82,35 @@ def parseItem (s : String) : Option Item :=
   | [a, b, c] => do pure ⟨← a.toNat?, ← b.toNat?, ← c.toNat?⟩
   | _ => none
 
-def parseCert (items first nullable nt : String) : Option Cert := do
+structure RawCert where
+  items : Array (List Item)
+  first : List (Nat × List Nat)
+  nullable : List Nat
+  nts : List Nat
+
+def parseCert (items first nullable nt : String) : Option RawCert := do
   let irows ← (splitNE (fld items) ";").mapM (parseRowOf parseItem)
   let first ← (splitNE (fld first) ";").mapM (parseRowOf (·.toNat?))
   let nullable ← parseNats (fld nullable)
   let nts ← parseNats (fld nt)
   let items : Array (List Item) :=
     irows.foldl (fun a r => a.setIfInBounds r.1 r.2) (Array.replicate (maxKey irows) [])
-  let ntA : Array Bool :=
-    nts.foldl (fun a x => a.setIfInBounds x true) (Array.replicate (nts.foldl (fun m x => max m (x + 1)) 0) false)
-  pure { items, first, nullable, nt := ntA }
+  pure { items, first, nullable, nts }
+
+def bitmap (l : List Nat) : Array Bool :=
+  l.foldl (fun a x => a.setIfInBounds x true) (Array.replicate (l.foldl (fun m x => max m (x + 1)) 0) false)
+
+/-- Assemble the certificate: the lookup arrays are (untrusted) indexes of `g`; `Valid`
+checks them. -/
+def mkCert (g : Grammar) (r : RawCert) : Cert :=
+  let all := g.all
+  let nsym := all.foldl (fun m p => max m (p.lhs + 1)) 0
+  let prodsOf : Array (List Nat) :=
+    all.zipIdx.foldl (fun a (p, i) => a.modify p.lhs (fun l => l ++ [i])) (Array.replicate nsym [])
+  let first : Array (List Nat) :=
+    r.first.foldl (fun a e => a.setIfInBounds e.1 e.2) (Array.replicate (maxKey r.first) [])
+  { items := r.items, rules := all.toArray, prodsOf, first, nullable := bitmap r.nullable,
+    nt := bitmap r.nts }
 
 /-! canonical output -/
 partial def showTree : Tree → String
@@ -189,22 +208,24 @@ def doBisim (A B : Automaton) : String :=
     else "bisim mismatch path=- at=0,0 why=pairing found by search is rejected by the verified checker"
 
 @[noinline] def partB (g : Grammar) (a : Automaton) (c : Cert) (part : String) : Option Bool :=
+  let m := fastMem c.sets
   if part == "wf" then some (decide (VWf g a c))
-  else if part == "start" then some (decide (VStart g c))
-  else if part == "trans" then some (decide (VTrans g a c))
-  else if part == "closure" then some (decide (VClosure g c))
-  else if part == "complete" then some (decide (VComplete g a c))
-  else if part == "kernel" then some (decide (VKernel g a c))
-  else if part == "order" then some (decide (VOrder g c))
-  else if part == "actjust" then some (decide (VActJust g a c))
-  else if part == "first" then some (decide (VFirst g c))
+  else if part == "start" then some (decide (VStart m g c))
+  else if part == "trans" then some (decide (VTrans m a c))
+  else if part == "closure" then some (decide (VClosure m c))
+  else if part == "complete" then some (decide (VComplete a c))
+  else if part == "kernel" then some (decide (VKernel m a c))
+  else if part == "order" then some (decide (VOrder c))
+  else if part == "actjust" then some (decide (VActJust m g a c))
+  else if part == "first" then some (decide (VFirst c))
+  else if part == "list" then some (validB g a c)
   else none
 
 structure St where
   auts : Std.HashMap String Automaton := {}
   rules : Std.HashMap String (List Rule) := {}
   gram : Option Grammar := none
-  cert : Option Cert := none
+  cert : Option RawCert := none
 
 def handlePure (st : St) (line : String) : St × String :=
   match line.splitOn " " with
@@ -228,13 +249,13 @@ def handlePure (st : St) (line : String) : St × String :=
   | ["LRVALID", slot] =>
     match st.auts[slot]?, st.gram, st.cert with
     | some a, some g, some c =>
-      (st, if validB g a c then "valid" else "invalid " ++ validWhy g a c)
+      let c := mkCert g c
+      (st, if validFast g a c then "valid" else "invalid " ++ validWhy g a c)
     | _, _, _ => (st, "bad-op")
   | ["LRPART", slot, part] =>
     match st.auts[slot]?, st.gram, st.cert with
     | some a, some g, some c =>
-      let r : Option Bool := partB g a c part
-      (st, match r with | some b => s!"{part} {b}" | none => "bad-op")
+      (st, match partB g a (mkCert g c) part with | some b => s!"{part} {b}" | none => "bad-op")
     | _, _, _ => (st, "bad-op")
   | ["RUN", slot, fuel, syms] =>
     match st.auts[slot]?, fuel.toNat?, parseNats (fld syms) with
